@@ -4,10 +4,10 @@
 package main
 
 import (
-	"github.com/cybergarage/go-logger/log"
 	"bufio"
 	"encoding/hex"
 	"fmt"
+	"github.com/cybergarage/go-logger/log"
 	"os"
 )
 
